@@ -69,9 +69,34 @@ def _strip_comments(src: str) -> str:
     return "".join(out)
 
 
-def frac(x) -> fractions.Fraction:
-    """Exact rational value of a float / int / numpy scalar."""
-    return fractions.Fraction(float(x)) if not isinstance(x, int) else fractions.Fraction(x)
+class NonFinite(str):
+    """nan / inf / -inf returned by the implementation: equal to no rational, ordered above nothing, printable.
+    Arithmetic with it gives it back, comparisons are False, so a spec oracle reports a concrete mismatch instead of crashing."""
+
+    def _same(self, *_):
+        return self
+    __add__ = __radd__ = __sub__ = __rsub__ = __mul__ = __rmul__ = __truediv__ = __rtruediv__ = __neg__ = __abs__ = _same
+
+    def _false(self, *_):
+        return False
+    __lt__ = __le__ = __gt__ = __ge__ = _false
+
+    def __eq__(self, other):
+        return False
+
+    def __ne__(self, other):
+        return True
+    __hash__ = str.__hash__
+
+
+def frac(x):
+    """Exact rational value of a float / int / numpy scalar (NonFinite for nan / inf)."""
+    if isinstance(x, int):
+        return fractions.Fraction(x)
+    v = float(x)
+    if v != v or v in (float("inf"), float("-inf")):
+        return NonFinite(repr(v))
+    return fractions.Fraction(v)
 
 
 def qlit(x) -> str:
